@@ -207,3 +207,23 @@ pub fn catch<R>(f: impl FnOnce() -> R) -> Result<R, String> {
         }
     }
 }
+
+/// A heap allocation that is handed out as `&'static T` while a history runs
+/// and reclaimed at its end (keeps the original pointer so that the reclaim is
+/// valid under Stacked Borrows, and so that Miri's leak check stays meaningful).
+pub struct Leaked<T> {
+    raw: *mut T,
+}
+impl<T> Leaked<T> {
+    pub fn new(v: T) -> Self {
+        Leaked { raw: Box::into_raw(Box::new(v)) }
+    }
+    pub fn get(&self) -> &'static T {
+        // Safety: valid until `reclaim`
+        unsafe { &*self.raw }
+    }
+    /// Safety: nothing borrows the value any more.
+    pub unsafe fn reclaim(self) {
+        drop(Box::from_raw(self.raw));
+    }
+}
